@@ -17,7 +17,7 @@ import numpy as np
 import z3
 
 from . import ops
-from .core import Ctx, PathEnd, PyExc, Sym, SymLeak, Unsupported, lift_pi, mk, pytype, term
+from .core import Ctx, PathEnd, PyExc, SpecAbort, Sym, SymLeak, Unsupported, lift_pi, mk, pytype, term
 from .objects import NDArr, SObj, SymStr
 
 # ------------------------------------------------------------------------------ source table
@@ -126,6 +126,22 @@ def unkey(k):
     return k.v if type(k) is SymKey else k
 
 
+def needs_key(v):
+    """values that cannot be hashed natively: symbolic numbers, model objects whose class defines __eq__/__hash__,
+    tuples containing such"""
+    if type(v) is Sym or type(v) is NDArr:
+        return True
+    if type(v) is SObj:
+        return getattr(v.cls, "__hash__", None) is not object.__hash__
+    if isinstance(v, tuple):
+        return any(needs_key(x) for x in v)
+    if isinstance(v, frozenset):
+        return any(type(x) is SymKey for x in v)
+    if type(v).__name__ in ("ArrStr", "NumStr"):
+        return True
+    return False
+
+
 class ModelFn:
     """a library model: python callable (interp, args, kwargs) -> value"""
 
@@ -195,8 +211,16 @@ def is_repo_class(cls):
     return mod.startswith("commonroad") or mod.startswith("verif_scratch")
 
 
+def has_symkey(v):
+    try:
+        return any(type(k) is SymKey for k in v)
+    except TypeError:
+        return False
+
+
 def has_sym(v, depth=0):
-    if type(v) is Sym or type(v) is SObj or type(v) is NDArr or type(v).__module__ == "pyvc.shapely_model":
+    if type(v) is Sym or type(v) is SObj or type(v) is NDArr or type(v).__module__ == "pyvc.shapely_model" or type(v) is SymKey \
+            or type(v).__name__ in ("ArrStr", "NumStr"):
         return True
     if depth > 3:
         return False
@@ -207,6 +231,8 @@ def has_sym(v, depth=0):
     return False
 
 
+_STDLIB_OK = {"re", "json", "os", "posixpath", "string", "textwrap", "itertools", "functools", "collections", "typing", "enum",
+              "datetime", "platform", "pathlib", "operator", "numbers", "abc", "keyword"}
 MAX_DEPTH = 60
 MAX_CONCRETE_LOOP = 5000
 
@@ -248,6 +274,8 @@ class Interp:
             if is_repo_class(f):  # python function from the repository
                 return self.call_closure(closure_of(f), list(args), kwargs)
             mod = getattr(f, "__module__", "") or ""
+            if mod.split(".")[0] in _STDLIB_OK and not has_sym(list(args)) and not has_sym(kwargs):
+                return self.call_native(f, args, kwargs)
             raise Unsupported("call of python function %s.%s without model" % (mod, f.__qualname__))
         if isinstance(f, types.MethodType):
             return self.call(f.__func__, [f.__self__] + list(args), kwargs)
@@ -258,6 +286,10 @@ class Interp:
             if call is None:
                 raise PyExc(TypeError, ("'%s' object is not callable" % f.cls.__name__,))
             return self.call(self.bind(call[0], f, call[1]), args, kwargs)
+        if f is object.__new__:
+            if args and isinstance(args[0], type) and is_repo_class(args[0]):
+                return SObj(args[0])
+            raise Unsupported("object.__new__ of %r" % (args[:1],))
         # builtin functions / methods / other callables
         try:
             m = self.models.get(f)
@@ -279,7 +311,10 @@ class Interp:
         mod = getattr(f, "__module__", None) or ""
         selfobj = getattr(f, "__self__", None)
         name = getattr(f, "__name__", repr(f))
-        if isinstance(selfobj, dict) and args and (type(args[0]) is Sym or any(type(k) is SymKey for k in selfobj)) and name in ("get", "pop", "setdefault", "__contains__", "__getitem__"):
+        if isinstance(selfobj, (set, frozenset)) and name in ("add", "discard", "remove", "__contains__", "update", "union", "issubset", "issuperset", "intersection", "difference", "copy") \
+                and (any(needs_key(a) for a in args) or any(type(k) is SymKey for k in selfobj) or any(isinstance(a, (set, frozenset, list)) and any(type(k) is SymKey or needs_key(k) for k in a) for a in args)):
+            return self.sym_set_method(selfobj, name, args)
+        if isinstance(selfobj, dict) and args and (needs_key(args[0]) or any(type(k) is SymKey for k in selfobj)) and name in ("get", "pop", "setdefault", "__contains__", "__getitem__"):
             k = self.dict_find(selfobj, args[0])
             if name == "__contains__":
                 return k is not _MISSING
@@ -296,7 +331,7 @@ class Interp:
             if name == "setdefault":
                 if k is not _MISSING:
                     return selfobj[k]
-                selfobj[SymKey(args[0]) if type(args[0]) is Sym else args[0]] = args[1] if len(args) > 1 else None
+                selfobj[SymKey(args[0]) if needs_key(args[0]) else args[0]] = args[1] if len(args) > 1 else None
                 return args[1] if len(args) > 1 else None
         if isinstance(selfobj, dict) and name in ("keys", "items") and any(type(k) is SymKey for k in selfobj):
             return [unkey(k) for k in selfobj] if name == "keys" else [(unkey(k), v) for k, v in selfobj.items()]
@@ -563,6 +598,10 @@ class Interp:
             from . import shapely_model
 
             return shapely_model.geom_attr(self, obj, name)
+        if type(obj).__name__ == "STRtreeModel":
+            from . import shapely_model
+
+            return shapely_model.strtree_attr(self, obj, name)
         if type(obj) is Sym:
             from . import libmodels
 
@@ -636,6 +675,8 @@ class Interp:
         return table[name]
 
     def raw_setattr(self, obj, name, value):
+        if self.ctx.spec_depth > 0:
+            raise SpecAbort()
         obj.attrs[name] = value
         self.write_log.append((obj, name))
 
@@ -1096,6 +1137,12 @@ class Interp:
         return out
 
     def make_set(self, items):
+        if any(needs_key(x) for x in items):
+            s = set()
+            for x in items:
+                self.check_hashable(x)
+                self.set_add(s, x)
+            return s
         try:
             return set(items)
         except SymLeak as e:
@@ -1207,18 +1254,36 @@ class Interp:
         return None
 
     def ex_BoolOp(self, node, fr):
+        """and / or with Python's short-circuit semantics.  When the left value is a symbolic bool, the next operand is
+        first evaluated speculatively (no forks, no attribute writes); if that succeeds and yields a bool, the two are
+        merged into one z3 term instead of forking (keeps `a == x and b == y and ...` chains on one path)."""
         is_and = isinstance(node.op, ast.And)
-        v = None
-        for i, e in enumerate(node.values):
-            v = self.eval(e, fr)
-            if i == len(node.values) - 1:
-                return v
-            t = self.truth(v)
+        ctx = self.ctx
+        acc = self.eval(node.values[0], fr)
+        for e in node.values[1:]:
+            if type(acc) is Sym and acc.ty is bool:
+                merged = None
+                ctx.spec_depth += 1
+                try:
+                    nxt = self.eval(e, fr)
+                    if isinstance(nxt, (bool, np.bool_)) or (type(nxt) is Sym and nxt.ty is bool):
+                        merged = self.bool_and(acc, nxt) if is_and else self.bool_or(acc, nxt)
+                except SpecAbort:
+                    merged = None
+                except (PyExc, _Return, _Break, _Continue):
+                    merged = None  # the operand raises / leaves: needs the real short-circuit (it may not be evaluated at all)
+                finally:
+                    ctx.spec_depth -= 1
+                if merged is not None:
+                    acc = merged
+                    continue
+            t = self.truth(acc)
             if is_and and not t:
-                return v
+                return acc
             if not is_and and t:
-                return v
-        return v
+                return acc
+            acc = self.eval(e, fr)
+        return acc
 
     def ex_BinOp(self, node, fr):
         a = self.eval(node.left, fr)
@@ -1459,8 +1524,29 @@ class Interp:
             return self.rich_compare(opcls, a, b)
         if isinstance(a, (list, tuple)) and isinstance(b, (list, tuple)) and type(a) is type(b) and (has_sym(a) or has_sym(b)):
             return self.seq_compare(opcls, a, b)
-        if isinstance(a, (set, frozenset, dict)) and has_sym(a) or isinstance(b, (set, frozenset, dict)) and has_sym(b):
+        if isinstance(a, (set, frozenset, dict)) and (has_sym(a) or has_symkey(a)) or isinstance(b, (set, frozenset, dict)) and (has_sym(b) or has_symkey(b)):
             return self.container_eq(opcls, a, b)
+        if type(a).__name__ in ("dict_items", "dict_keys") and type(b).__name__ == type(a).__name__ and (has_sym(list(a)) or has_sym(list(b))):
+            if type(a).__name__ == "dict_items":
+                return self.container_eq(opcls, dict(a), dict(b))
+            return self.container_eq(opcls, set(a), set(b))
+        if type(a).__name__ == "NumStr" or type(b).__name__ == "NumStr":
+            if opcls not in (ast.Eq, ast.NotEq):
+                raise Unsupported("ordering of number strings")
+            if type(a).__name__ == "NumStr" and type(b).__name__ == "NumStr":
+                from .core import is_float_type as _isf
+
+                if _isf(a.sym.ty) != _isf(b.sym.ty):
+                    return opcls is ast.NotEq
+                return ops.compare(opcls, a.sym, b.sym)
+            raise Unsupported("comparison of a symbolic number string with %r" % (b if type(a).__name__ == "NumStr" else a,))
+        if type(a).__name__ == "ArrStr" or type(b).__name__ == "ArrStr":
+            if type(a).__name__ != "ArrStr" or type(b).__name__ != "ArrStr":
+                return opcls is ast.NotEq
+            if a.shape != b.shape:
+                return opcls is ast.NotEq
+            r = self.seq_compare(ast.Eq, tuple(a.items), tuple(b.items))
+            return r if opcls is ast.Eq else self.bool_not(r)
         try:
             return _NATIVE_CMP[opcls](a, b)
         except SymLeak as e:
@@ -1543,13 +1629,21 @@ class Interp:
         if opcls not in (ast.Eq, ast.NotEq):
             raise Unsupported("ordering on containers with symbolic elements")
         if isinstance(a, dict) and isinstance(b, dict):
-            if set(a.keys()) != set(b.keys()):
+            if len(a) != len(b):
                 return opcls is ast.NotEq
             acc = True
             for k in a:
-                acc = self.bool_and(acc, self.compare(ast.Eq, a[k], b[k]))
+                kb = self.dict_find(b, unkey(k))
+                if kb is _MISSING:
+                    return opcls is ast.NotEq
+                acc = self.bool_and(acc, self.compare(ast.Eq, a[k], b[kb]))
             return acc if opcls is ast.Eq else self.bool_not(acc)
-        raise Unsupported("equality of sets with symbolic members")
+        if isinstance(a, (set, frozenset)) and isinstance(b, (set, frozenset)):
+            if len(a) != len(b) and not any(type(k) is SymKey for k in list(a) + list(b)):
+                return opcls is ast.NotEq
+            r = all(self.dict_find(b, unkey(x)) is not _MISSING for x in a) and all(self.dict_find(a, unkey(x)) is not _MISSING for x in b)
+            return r if opcls is ast.Eq else not r
+        raise Unsupported("equality of containers with symbolic members")
 
     def to_boolsym(self, r):
         if type(r) is Sym:
@@ -1604,7 +1698,7 @@ class Interp:
                 if acc is True:
                     return True
             return acc
-        if isinstance(container, dict) and (type(item) is Sym or any(type(k) is SymKey for k in container)):
+        if isinstance(container, (dict, set, frozenset)) and (needs_key(item) or any(type(k) is SymKey for k in container)):
             return self.dict_find(container, item) is not _MISSING
         if isinstance(container, (dict, set, frozenset)) or isinstance(container, type({}.keys())) or isinstance(container, type({}.values())):
             if type(item) is Sym:
@@ -1650,7 +1744,7 @@ class Interp:
             if f is None:
                 raise PyExc(TypeError, ("'%s' object is not subscriptable" % o.cls.__name__,))
             return self.call(self.bind(f[0], o, f[1]), [i], {})
-        if isinstance(o, dict) and (type(i) is Sym or any(type(k) is SymKey for k in o)):
+        if isinstance(o, dict) and (needs_key(i) or any(type(k) is SymKey for k in o)):
             return self.sym_dict_get(o, i)
         if type(i) is Sym:
             if isinstance(o, (list, tuple)):
@@ -1676,19 +1770,21 @@ class Interp:
 
     def dict_find(self, d, key):
         """the stored key equal to `key` (forking on symbolic comparisons), or the sentinel _MISSING"""
-        if type(key) is not Sym and not any(type(k) is SymKey for k in d):
+        if not needs_key(key) and not any(type(k) is SymKey for k in d):
             try:
                 return key if key in d else _MISSING
             except SymLeak as e:
                 raise Unsupported("dict lookup needs model: %s" % e)
             except TypeError as e:
                 raise PyExc(TypeError, e.args)
+        self.check_hashable(key)
         for k in list(d):
             kv = unkey(k)
-            if type(kv) is Sym or type(key) is Sym:
-                if (type(kv) is Sym or isinstance(kv, (int, float, np.number))) and (type(key) is Sym or isinstance(key, (int, float, np.number))):
-                    if self.truth(self.compare(ast.Eq, kv, key)):
-                        return k
+            if kv is key:
+                return k
+            if needs_key(kv) or needs_key(key):
+                if self.truth(self.compare(ast.Eq, kv, key)):
+                    return k
             else:
                 try:
                     if kv == key:
@@ -1696,6 +1792,63 @@ class Interp:
                 except SymLeak as e:
                     raise Unsupported("dict lookup needs model: %s" % e)
         return _MISSING
+
+    def check_hashable(self, v):
+        """TypeError of the program if v is unhashable (list, dict, set, ndarray, object whose class sets __hash__ = None)"""
+        if type(v) is SObj:
+            f = self.lookup_class_attr(v.cls, "__hash__")
+            if f is None or f[0] is None:
+                raise PyExc(TypeError, ("unhashable type: '%s'" % v.cls.__name__,))
+        elif type(v) is NDArr:
+            raise PyExc(TypeError, ("unhashable type: 'numpy.ndarray'",))
+        elif isinstance(v, (list, dict, set)):
+            raise PyExc(TypeError, ("unhashable type: '%s'" % type(v).__name__,))
+        elif isinstance(v, tuple):
+            for x in v:
+                self.check_hashable(x)
+
+    def set_add(self, s, item):
+        if self.dict_find(s, item) is _MISSING:
+            s.add(SymKey(item) if needs_key(item) else item)
+
+    def sym_set_method(self, s, name, args):
+        if name == "add":
+            self.set_add(s, args[0])
+            return None
+        if name in ("discard", "remove"):
+            k = self.dict_find(s, args[0])
+            if k is _MISSING:
+                if name == "remove":
+                    raise PyExc(KeyError, (args[0],))
+                return None
+            s.remove(k)
+            return None
+        if name == "__contains__":
+            return self.dict_find(s, args[0]) is not _MISSING
+        if name == "update":
+            for a in args:
+                for x in self.iterate(a):
+                    self.set_add(s, x)
+            return None
+        if name == "copy":
+            return type(s)(s)
+        if name == "union":
+            r = set(s)
+            for a in args:
+                for x in self.iterate(a):
+                    self.set_add(r, x)
+            return r if isinstance(s, set) else frozenset(r)
+        if name == "issubset":
+            return all(self.dict_find(args[0] if isinstance(args[0], (set, frozenset, dict)) else self.make_set(list(self.iterate(args[0]))), unkey(x)) is not _MISSING for x in s)
+        if name == "issuperset":
+            return all(self.dict_find(s, x) is not _MISSING for x in self.iterate(args[0]))
+        if name == "intersection":
+            other = args[0] if isinstance(args[0], (set, frozenset)) else self.make_set(list(self.iterate(args[0])))
+            return type(s)(k for k in s if self.dict_find(other, unkey(k)) is not _MISSING)
+        if name == "difference":
+            other = args[0] if isinstance(args[0], (set, frozenset)) else self.make_set(list(self.iterate(args[0])))
+            return type(s)(k for k in s if self.dict_find(other, unkey(k)) is _MISSING)
+        raise Unsupported("set.%s with symbolic members" % name)
 
     def sym_dict_get(self, d, key):
         k = self.dict_find(d, key)
@@ -1715,10 +1868,10 @@ class Interp:
                 raise PyExc(TypeError, ("'%s' object does not support item assignment" % o.cls.__name__,))
             self.call(self.bind(f[0], o, f[1]), [i, v], {})
             return
-        if isinstance(o, dict) and (type(i) is Sym or any(type(k) is SymKey for k in o)):
+        if isinstance(o, dict) and (needs_key(i) or any(type(k) is SymKey for k in o)):
             k = self.dict_find(o, i)
             if k is _MISSING:
-                k = SymKey(i) if type(i) is Sym else i
+                k = SymKey(i) if needs_key(i) else i
             o[k] = v
             return
         if type(i) is Sym:
